@@ -335,7 +335,9 @@ def small_strain(vk, cfg):
         ss = np.sum(s * s)
         c23 = float(np.sqrt(2 / 3))
         if vk.sym:
-            f = ring.nthroot(co(ss), 2) - co(c23) * (sy + K * alpha[0])
+            from fractions import Fraction
+
+            f = ring.nthroot(co(ss), 2) - ring.nthroot(LP.const(Fraction(2, 3)), 2) * (sy + K * alpha[0])
             oracle.assume(f, ">" if cfg["case"] == "plastic" else "<")
             for x in (mu, sy):
                 oracle.assume(x, ">")
